@@ -32,7 +32,7 @@ def _work(arg):
     from shapecheck import Shapecheck
     facts = _load(fpath)
     sc = Shapecheck(facts)
-    sc.entry_time_limit = 120 if tier == "thorough" else 60
+    sc.entry_time_limit = 300 if tier == "thorough" else 150      # the slowest entry takes about 16 s on an idle machine
     res = []
     for (p, nm) in items:
         fn = facts.fns[p]
